@@ -324,9 +324,9 @@ def wl_refused(ctx, rng, i):
 
 
 WORKLOADS = [
-    Workload("doubles", wl_doubles, quick=320, thorough=8000),
-    Workload("integers", wl_ints, quick=12, thorough=400),
-    Workload("documents", wl_docs, quick=600, thorough=8000),
+    Workload("doubles", wl_doubles, quick=320, thorough=40000),
+    Workload("integers", wl_ints, quick=12, thorough=2000),
+    Workload("documents", wl_docs, quick=600, thorough=40000),
     Workload("refused", wl_refused, quick=1, thorough=1),
     __import__("stixmon.ambient", fromlist=["workload"]).workload("C16"),
 ]
